@@ -17,7 +17,7 @@ for p in sorted(glob.glob(os.path.join(V, "seeded", "*", "meta.json"))):
         if not mm:
             continue
         prop, rest = mm.group(1), mm.group(2)
-        rules = re.findall(r"R\d\d\.\d+", rest.split("|")[0])
+        rules = re.findall(r"R\d\d\.\d+|L\.[a-z-]+", rest.split("|")[0])
         if not rules:
             continue
         exp.setdefault(prop, set()).add(re.escape(rules[-1]))
